@@ -375,6 +375,10 @@ func genHistory(r *rng.R, long bool) history {
 		}
 	}
 	nextID := int64(1)
+	stallAt, stallSec := -1, int64(0)
+	if rs := r.Fork(0x57A11); rs.Bool(1, 5) {
+		stallAt, stallSec = nWrites/10+rs.Intn(nWrites/3+1), int64(2+rs.Intn(3))
+	}
 	for w := 0; w < nWrites; w++ {
 		// choose the track whose media time is earliest, with some randomness (bursts, one ahead)
 		ti := 0
@@ -461,6 +465,13 @@ func genHistory(r *rng.R, long bool) history {
 				d = 0 // equal consecutive DTS
 			}
 			s.dts += d
+			if stallAt >= 0 && w >= stallAt && !reoStream {
+				// a frozen picture: one unit lasts seconds, so one segment is much longer than its neighbours (the
+				// target duration grows there, and stays when that segment has left the window)
+				s.dts += stallSec * t.Rate
+				stallAt = -1
+				h.stat("video-stall")
+			}
 			ln := 10 + r.Intn(120)
 			if r.Bool(1, 30) {
 				ln = 300 + r.Intn(900)
